@@ -15,7 +15,14 @@ import (
 type Rng struct{ s uint64 }
 
 // NewRng creates a generator from a seed.
-func NewRng(seed uint64) *Rng { return &Rng{s: seed*0x9E3779B97F4A7C15 + 0x1234567} }
+func NewRng(seed uint64) *Rng {
+	// hash the seed so that consecutive seeds give unrelated streams (seed and seed+1 would otherwise be the same
+	// SplitMix64 sequence shifted by one draw)
+	r := &Rng{s: seed ^ 0x6A09E667F3BCC909}
+	r.s = r.U64() ^ (seed * 0xD6E8FEB86659FD93)
+	r.s = r.U64()
+	return r
+}
 
 // U64 returns the next 64 random bits.
 func (r *Rng) U64() uint64 {
